@@ -328,3 +328,71 @@ Proof.
   - destruct (g_holder _ G h El) as (q & Hq1 & Hq2). exists h. eapply Hen; [exact Hq1| |]; destruct q; cbn in *; congruence.
   - exists t. unfold tstep. rewrite Hp. cbn. rewrite El. discriminate.
 Qed.
+
+(* ---------- lookups in the converter registry ---------- *)
+From UV Require Import RegCache.
+Section RegCacheProofs.
+  Variable scan : nat -> nat.
+  Definition cache_ok (ca : cache) : Prop := forall t c, lookup ca t = Some c -> c = scan t.
+  Definition rpc_ok (ca : cache) (p : rpc) : Prop :=
+    match p with
+    | RHit t => lookup ca t <> None
+    | RFill t c => c = scan t
+    | RDone t c => c = scan t
+    | RKeyErr _ => False
+    | _ => True
+    end.
+  Definition rinv (st : rstate) : Prop :=
+    cache_ok (r_cache st) /\ forall u p, nth_error (r_ths st) u = Some p -> rpc_ok (r_cache st) p.
+
+  Lemma lookup_cons ca t c t' : lookup ((t, c) :: ca) t' = if t =? t' then Some c else lookup ca t'.
+  Proof. reflexivity. Qed.
+
+  (* a fill only adds a correct entry: nothing another thread relies on is lost *)
+  Lemma rpc_ok_grow ca t p : rpc_ok ca p -> rpc_ok ((t, scan t) :: ca) p.
+  Proof. destruct p; cbn; auto. intros H. destruct (t =? t0); [discriminate|exact H]. Qed.
+
+  Lemma rtstep_inv st u st' ev : rinv st -> rtstep scan st u = Some (st', ev) -> rinv st'.
+  Proof.
+    intros [Hc Hp] H. unfold rtstep in H. destruct (nth_error (r_ths st) u) as [p|] eqn:Ep; [|discriminate].
+    destruct (rstep scan (r_cache st) p) as [[[ca p'] ev']|] eqn:Es; [|discriminate]. injection H as <- <-.
+    assert (Hlt : u < length (r_ths st)) by (apply nth_error_Some; congruence).
+    pose proof (Hp u p Ep) as Hpu.
+    assert (Hstep : cache_ok ca /\ rpc_ok ca p' /\ (forall q, rpc_ok (r_cache st) q -> rpc_ok ca q)).
+    { destruct p as [t|t|t|t c|t c|t]; cbn in Es.
+      - destruct (lookup (r_cache st) t) eqn:El; injection Es as <- <- <-; repeat split; auto; cbn; congruence.
+      - destruct (lookup (r_cache st) t) as [c|] eqn:El; [|cbn in Hpu; congruence]. injection Es as <- <- <-.
+        repeat split; auto. cbn. apply Hc. exact El.
+      - injection Es as <- <- <-. repeat split; auto.
+      - injection Es as <- <- <-. cbn in Hpu. subst c. split; [|split].
+        + intros t' c'. rewrite lookup_cons. destruct (t =? t') eqn:E; [|apply Hc]. apply Nat.eqb_eq in E. subst. congruence.
+        + cbn. reflexivity.
+        + intros q. apply rpc_ok_grow.
+      - discriminate.
+      - discriminate. }
+    destruct Hstep as (H1 & H2 & H3). split; cbn; [exact H1|].
+    intros v q Hv. destruct (Nat.eq_dec v u) as [->|Hne].
+    - rewrite nth_set_nth_same in Hv by exact Hlt. injection Hv as <-. exact H2.
+    - rewrite nth_set_nth_other in Hv by exact Hne. apply H3. apply (Hp v q Hv).
+  Qed.
+End RegCacheProofs.
+
+Lemma rrun_inv scan : forall sched st, rinv scan st -> rinv scan (rrun scan st sched).
+Proof.
+  induction sched as [|u r IH]; intros st Hi; cbn; [exact Hi|].
+  destruct (rtstep scan st u) as [[st' ev]|] eqn:E; [|apply IH; exact Hi]. apply IH. eapply rtstep_inv; eauto.
+Qed.
+
+(* any number of threads looking up any types, an empty or already correct cache, any schedule: every lookup returns
+   the converter the scan of the registrations gives, and the read of a hit never fails *)
+Theorem registry_lookups_safe scan ca reqs sched : cache_ok scan ca ->
+  forall u p, nth_error (r_ths (rrun scan {| r_cache := ca; r_ths := map RTest reqs |} sched)) u = Some p ->
+    (forall t, p <> RKeyErr t) /\ (forall t c, p = RDone t c -> c = scan t).
+Proof.
+  intros Hc u p Hp.
+  assert (Hi : rinv scan {| r_cache := ca; r_ths := map RTest reqs |}).
+  { split; [exact Hc|]. cbn. intros v q Hv. apply nth_error_In in Hv. apply in_map_iff in Hv. destruct Hv as (t & <- & _). exact I. }
+  pose proof (rrun_inv scan sched _ Hi) as [_ H]. specialize (H u p Hp). split.
+  - intros t ->. exact H.
+  - intros t c ->. exact H.
+Qed.
